@@ -1,4 +1,136 @@
-From Verif Require Import Common.Base C06.Model C06.Proofs.
-Theorem stub_fan_cap_direct : forall i, fan_cap (FDirect i) = false.
-Proof. exact fan_cap_direct. Qed.
-Print Assumptions stub_fan_cap_direct.
+(* C06/Properties.v — the property theorems, nothing else.  Each is closed by [exact lemma] and
+   followed by Print Assumptions (captured into the evidence by the check driver).
+
+   Vocabulary (Model.v): [caps] is the vector of declared MutatesData capabilities of the consumers
+   passed to fanoutconsumer.NewX (any length, any values); [ro_in] says whether the payload passed
+   to ConsumeX is already read-only; [c0] is its content; [ls] is an ARBITRARY schedule: a list of
+   labels, each either "the fan-out performs its next consumer call" (LCall) or "consumer i runs
+   mutation program w on the payload it was given" (LWrite i w) — by declared and by undeclared
+   writers, at any time relative to the calls, in particular after the fan-out has moved on or
+   returned ("asynchronously after returning").  [run (new_fan caps) ro_in c0 ls] is the state after
+   that schedule; every statement below is for all caps, ro_in, c0 and ls, hence holds at every
+   point in time of every execution.  [holds m i c]: consumer i was handed payload cell c (cell 0 is
+   the caller's payload, every other cell is a clone made by the fan-out); [view m i]: the content
+   consumer i sees now; [own_view i log c0]: c0 transformed by i's own successful writes only. *)
+From Verif Require Import Common.Base C06.Model C06.Proofs C06.Proofs2.
+From Coq Require Import Permutation.
+
+(* ---- every consumer is invoked, exactly once, whatever earlier consumers returned -------------- *)
+(* The consumers called so far are a prefix of the fixed call order, one per LCall label ... *)
+Theorem fanout_calls_all : forall caps ro_in c0 ls,
+  calls_of (elog (run (new_fan caps) ro_in c0 ls)) = firstn (ncalls ls) (call_order (new_fan caps)).
+Proof. exact calls_prefix_l. Qed.
+Print Assumptions fanout_calls_all.
+
+(* ... the call order is a permutation of ALL consumers 0..n-1 (each exactly once) and keeps the list
+   order inside each class: mutating consumers first, then the non-mutating ones.  The model's call
+   sequence does not depend on the errors returned (there is no such input to [run]). *)
+Theorem fanout_call_order : forall caps,
+  Permutation (call_order (new_fan caps)) (seq 0 (length caps)) /\
+  call_order (new_fan caps) =
+    map fst (filter (fun p => Bool.eqb (snd p) true) (combine (seq 0 (length caps)) caps)) ++
+    map fst (filter (fun p => Bool.eqb (snd p) false) (combine (seq 0 (length caps)) caps)).
+Proof. exact call_order_l. Qed.
+Print Assumptions fanout_call_order.
+
+(* once the fan-out has made all its calls, every consumer has been called exactly once *)
+Theorem fanout_all_called : forall caps ro_in c0 ls,
+  length caps <= ncalls ls ->
+  Permutation (calls_of (elog (run (new_fan caps) ro_in c0 ls))) (seq 0 (length caps)).
+Proof. exact all_called. Qed.
+Print Assumptions fanout_all_called.
+
+(* The returned error aggregates ALL failures: its leaves are the leaves of every consumer's error
+   (errs i = leaves of the error consumer i returns, [] for nil), in call order — as a multiset,
+   exactly the concatenation of all individual errors. *)
+Theorem fanout_error_aggregates : forall caps errs,
+  length errs = length caps ->
+  consume_err (new_fan caps) errs = flat_map (fun i => nth i errs []) (call_order (new_fan caps)) /\
+  Permutation (consume_err (new_fan caps) errs) (concat errs).
+Proof. exact error_aggregates_l. Qed.
+Print Assumptions fanout_error_aggregates.
+
+(* ---- every consumer receives content equal to what was sent ------------------------------------ *)
+Theorem fanout_content_equal : forall caps ro_in c0 ls i c ro seen,
+  In (ECall i c ro seen) (elog (run (new_fan caps) ro_in c0 ls)) -> seen = c0.
+Proof. exact content_equal_l. Qed.
+Print Assumptions fanout_content_equal.
+
+(* ---- handle discipline ---------------------------------------------------------------------------- *)
+Theorem fanout_handle_discipline : forall caps ro_in c0 ls,
+  let m := run (new_fan caps) ro_in c0 ls in
+  (* (i) a declared-mutating consumer's payload is held by nobody else, and is mutable *)
+  (forall i j c, mutc_of caps i = true -> holds m i c -> holds m j c -> j = i) /\
+  (forall i c, holds m i c -> mutc_of caps i = true -> cro (get (st m) c) = false) /\
+  (* (ii) a payload held by two consumers is the caller's, both are non-mutating, it is read-only *)
+  (forall i j c, holds m i c -> holds m j c -> i <> j ->
+     c = 0 /\ mutc_of caps i = false /\ mutc_of caps j = false /\ cro (get (st m) c) = true) /\
+  (* (iii) the caller's payload reaches a mutating consumer only if Capabilities().MutatesData of the
+     fan-out is true and the payload was not read-only *)
+  (forall i, holds m i 0 -> mutc_of caps i = true ->
+     fan_cap (new_fan caps) = true /\ ro_in = false /\ cro (get (st m) 0) = false).
+Proof. exact handle_discipline_l. Qed.
+Print Assumptions fanout_handle_discipline.
+
+(* ---- non-interference ------------------------------------------------------------------------------ *)
+(* For every schedule of calls and writes (by anybody, declared or not, synchronous or later), what a
+   consumer sees in its payload is the sent content changed by ITS OWN successful writes only. *)
+Theorem fanout_noninterference : forall caps ro_in c0 ls i x,
+  let m := run (new_fan caps) ro_in c0 ls in
+  view m i = Some x -> x = own_view i (elog m) c0.
+Proof. exact noninterference_l. Qed.
+Print Assumptions fanout_noninterference.
+
+(* In particular a consumer that does not write (the premise for "does not declare mutation") never
+   observes any change made by any other consumer. *)
+Theorem fanout_nonmutating_sees_sent : forall caps ro_in c0 ls i x,
+  let m := run (new_fan caps) ro_in c0 ls in
+  (forall w, ~ In (EWrite i w WOk) (elog m)) -> view m i = Some x -> x = c0.
+Proof. exact noninterference_nowrite_l. Qed.
+Print Assumptions fanout_nonmutating_sees_sent.
+
+(* A write succeeded only on a payload nobody else holds ... *)
+Theorem fanout_write_ok_exclusive : forall caps ro_in c0 ls i w c j,
+  let m := run (new_fan caps) ro_in c0 ls in
+  In (EWrite i w WOk) (elog m) -> holds m i c -> holds m j c -> j = i.
+Proof. exact write_ok_exclusive_l. Qed.
+Print Assumptions fanout_write_ok_exclusive.
+
+(* ... and an undeclared mutation of shared data panics before changing anything (or reaches no
+   mutator at all): the store is unchanged. *)
+Theorem fanout_shared_write_panics : forall caps ro_in c0 ls i j c w,
+  let m := run (new_fan caps) ro_in c0 ls in
+  let m' := mstep (nro (new_fan caps)) m (LWrite i w) in
+  holds m i c -> holds m j c -> i <> j ->
+  st m' = st m /\ exists r, elog m' = EWrite i w r :: elog m /\ r <> WOk /\
+                            (wr_asserts w (cont (get (st m) c)) = true -> r = WPanic).
+Proof. exact shared_write_panics_l. Qed.
+Print Assumptions fanout_shared_write_panics.
+
+(* A consumer that declares mutation never meets the read-only panic. *)
+Theorem fanout_mutator_never_panics : forall caps ro_in c0 ls i w,
+  In (EWrite i w WPanic) (elog (run (new_fan caps) ro_in c0 ls)) -> mutc_of caps i = false.
+Proof. exact mutator_never_panics_l. Qed.
+Print Assumptions fanout_mutator_never_panics.
+
+(* ---- capabilities ---------------------------------------------------------------------------------- *)
+(* The fan-out advertises MutatesData exactly when it has consumers and all of them mutate — by (iii)
+   and [orig_reaches_mutator] exactly the situations in which the caller's payload is handed to a
+   mutating consumer. *)
+Theorem fan_cap_exact : forall caps,
+  fan_cap (new_fan caps) = true <-> caps <> [] /\ forallb id caps = true.
+Proof. exact fan_cap_spec. Qed.
+Print Assumptions fan_cap_exact.
+
+(* A pipeline advertises MutatesData exactly when one of its processors does or its exporter fan-out does. *)
+Theorem pipeline_cap_exact : forall procs exps,
+  pipeline_cap procs exps = true <->
+  (exists p, In p procs /\ p = true) \/ fan_cap (new_fan exps) = true.
+Proof. exact pipeline_cap_exact_l. Qed.
+Print Assumptions pipeline_cap_exact.
+
+(* A same-signal connector advertises MutatesData when it or any pipeline it feeds does. *)
+Theorem connector_cap_exact : forall base nexts,
+  aggregate_cap base nexts = base || existsb id nexts.
+Proof. exact aggregate_cap_spec. Qed.
+Print Assumptions connector_cap_exact.
